@@ -259,6 +259,11 @@ out.append('//@ func $S.GetFloat32')
 out.append('//@   requires RIc(a)')
 out.append('//@   ensures result == val(a)')
 out.append('//@   pure')
+for g in ('GetInt', 'GetInt8', 'GetInt16', 'GetInt32', 'GetInt64'):
+    out.append('//@ func $S.%s' % g)
+    out.append('//@   requires RIc(a)')
+    out.append('//@   ensures result == trunc(val(a))')
+    out.append('//@   pure')
 out.append('//@ func $S.GetOrder')
 out.append('//@   requires RIc(a)')
 out.append('//@   ensures result == order(a)')
@@ -274,6 +279,12 @@ out.append('//@   pure')
 out.append('//@ func $S.GetHessian')
 out.append('//@   requires RIc(a) && (order(a) >= 2 ==> 0 <= i && i < nvars(a) && 0 <= j && j < nvars(a))')
 out.append('//@   ensures result == H(a, i, j)')
+out.append('//@   pure')
+out.append('//@ end')
+out.append('//@ for $S in (*Real64), (*Real32)')
+out.append('//@ func $S.GetLogValue')
+out.append('//@   requires RIc(a)')
+out.append('//@   ensures result == log(val(a))')
 out.append('//@   pure')
 out.append('//@ end')
 out.append('')
